@@ -40,7 +40,7 @@ impl VWrite for String {
 pub trait VDisplay {
     spec fn render(&self) -> Seq<char>;
     fn fmt(&self, f: &mut String) -> (r: FmtResult)
-        ensures r.is_ok(), final(f)@ == old(f)@ + self.render();
+        ensures r.is_ok(), final(f)@ == old(f)@ + self.render();   // [C01 C02] Display appends exactly the rendering of the value: the std numeral of exactly the number supplied, the code of the kind, the values of a list in order
 }
 impl VDisplay for i64 {
     open spec fn render(&self) -> Seq<char> { dec_i64(*self) }
